@@ -251,8 +251,9 @@ def _export_synsets(lexids: Sequence[int], version: VersionInfo) -> list[lmf.Syn
     synsets: list[lmf.Synset] = []
     for id, pos, ili, _, rowid in find_synsets(lexicon_rowids=lexids):
         ilidef = _export_ili_definition(rowid)
-        if ilidef and not ili:
-            ili = 'in'  # special case for proposed ILIs
+        proposed = next(find_proposed_ilis(synset_rowid=rowid), None)
+        if proposed is not None and not ili:
+            ili = 'in'  # special case for proposed ILIs (with or without definition)
         ss: lmf.Synset = {
             'id': id,
             'ili': ili or '',
